@@ -127,9 +127,9 @@ def run(ctx):
     if len(dir_scripts) > nd:
         dir_scripts = rnd.sample(dir_scripts, nd)
     if len(arch_scripts) > na:
-        # keep every scenario without a regular member (the reproduced defect lives there)
-        rnd.shuffle(arch_scripts)
-        arch_scripts = arch_scripts[:na]
+        # (about a fifth of the enumerated archives have no regular member; the vacuity guard below
+        # requires that the sample contains some)
+        arch_scripts = rnd.sample(arch_scripts, na)
     ctx.log("scripts from TLC: %d trees (%d replayed), %d archives (%d replayed)" % (
         all_dir, len(dir_scripts), all_arch, len(arch_scripts)))
     inp_dir, inp_arch = ctx.path("scripts_dir.ndjson"), ctx.path("scripts_arch.ndjson")
